@@ -393,6 +393,12 @@ func (fr *frame) ptr(v value) *value {
 	panic(engineError{fmt.Sprintf("ptr of %T", v)})
 }
 
+// sliceDataPtr is the result of unsafe.SliceData / unsafe.StringData.
+type sliceDataPtr struct {
+	s   []value
+	str value
+}
+
 // symElemPtr is the address of an element selected by a symbolic index.
 type symElemPtr struct {
 	elems []value
@@ -815,6 +821,43 @@ func (w *Worker) callBuiltin(caller *frame, callpos token.Pos, fn *ssa.Builtin, 
 
 	case "ssa:deferstack":
 		return &caller.defers
+
+	case "SliceData":
+		return &sliceDataPtr{s: args[0].([]value)}
+	case "StringData":
+		return &sliceDataPtr{str: args[0]}
+	case "String":
+		n := caller.concInt(args[1], "unsafe.String length")
+		p, ok := args[0].(*sliceDataPtr)
+		if !ok {
+			if n == 0 {
+				return ""
+			}
+			panic(engineError{"unsafe.String of a foreign pointer"})
+		}
+		if p.str != nil {
+			return mkStr(strBytes(p.str)[:n])
+		}
+		b := make([]*Term, n)
+		for i := range b {
+			b[i] = p.s[i].(*Term)
+		}
+		return mkStr(b)
+	case "Slice":
+		n := caller.concInt(args[1], "unsafe.Slice length")
+		p, ok := args[0].(*sliceDataPtr)
+		if !ok {
+			panic(engineError{"unsafe.Slice of a foreign pointer"})
+		}
+		if p.str != nil {
+			bs := strBytes(p.str)
+			out := make([]value, n)
+			for i := range out {
+				out[i] = bs[i]
+			}
+			return out
+		}
+		return p.s[:n]
 	}
 	panic(engineError{"unknown built-in: " + fn.Name()})
 }
